@@ -6,6 +6,7 @@ mod props_fs;
 mod props_lang;
 mod props_partition;
 mod props_query;
+mod props_stack;
 mod space;
 
 use common::Tier;
@@ -30,6 +31,8 @@ fn replay(prop: &str, file: &str) -> i32 {
             "family" => props_algebra::replay_family(&case),
             "lang" => props_lang::replay_lang(&case),
             "walk" => props_fs::replay_walk(&case, prop),
+            "stack" => props_stack::replay_stack(&case, prop),
+            "partition-programs" => props_stack::replay_partition_programs(&case),
             "partition" => props_partition::replay_partition(&case),
             "escape" => props_partition::replay_escape(&case),
             "depth" => props_query::replay_depth(&case),
@@ -125,6 +128,9 @@ fn main() {
         "C01" => props_lang::c01(tier),
         "C02" => props_fs::c02_c14(tier, "C02"),
         "C14" => props_fs::c02_c14(tier, "C14"),
+        "C03" => props_stack::c03(tier),
+        "C13" => props_stack::c13_c16(tier, "C13"),
+        "C16" => props_stack::c13_c16(tier, "C16"),
         "C07" => props_algebra::c07(tier),
         "C08" => props_partition::c08(tier),
         "C18" => props_partition::c18(tier),
